@@ -238,6 +238,31 @@ def mon_C10(h, ents, pend, raw):
                 out.append(("comms-collection-size", "comms::server retains %d connections, fewer than http_server's %d" % (nc, nh)))
             if nc > len(started - closed):
                 out.append(("closed-connection-retained", "comms::server retains %d connections, only %d sockets are not closed" % (nc, len(started - closed))))
+    if h["flav"] == "tcp":
+        # a read or a write that completes with an error (any code but the one of a cancelled operation) ends the
+        # connection: the application is told, once - whatever else is in flight
+        cur, failed = None, {}
+        seen_conn, seen_disc = set(), set()
+        for e in ents:
+            m = re.match(r"\[([Ew])(\d+):(\w+)\]$", e)
+            if e.startswith("["):
+                cur = (int(m.group(2)), m.group(1), m.group(3)) if m and m.group(3) != "cancel" else None
+                if cur and cur[0] in seen_conn and cur[0] not in seen_disc:
+                    failed[cur[0]] = "%s%d:%s" % (cur[1], cur[0], cur[2])
+                continue
+            m2 = re.match(r"c(\d+):(.*)", e)
+            if not m2:
+                continue
+            cid, what = int(m2.group(1)), m2.group(2)
+            if what == "connected":
+                seen_conn.add(cid)
+            elif what == "disconnected":
+                seen_disc.add(cid)
+            elif cur and cid == cur[0] and what in ("NO-READ", "NO-WRITE"):
+                failed.pop(cid, None)      # nothing was pending: the event was not delivered
+        quiet = sorted(c for c in failed if c not in seen_disc)
+        if quiet:
+            out.append(("error-without-disconnected-event", "c%d: an operation completed with an error (%s) but the application was never told that the connection is gone" % (quiet[0], failed[quiet[0]])))
     if h["name"] == "crowd":
         # every request in these histories is a complete valid one on an open connection, and every connection is closed in the end:
         # each must be served whatever happened to the others, and each must be told of its own disconnection
